@@ -1,5 +1,6 @@
 SPECIFICATION MCSpec
 CONSTANTS
+  KeepHist = FALSE
   MaxS = 3
   MaxW = 2
   Srcs = {"dc", "ac", "dac", "ca"}
